@@ -220,6 +220,8 @@ def scatter_order(rep, k, ix):
         if l[0] == k.fq:
             pass
     st_node = next((n for n in ast.walk(k.node) if isinstance(n, ast.Assign) and n.lineno == lineno and isinstance(n.targets[0], ast.Subscript)), None)
+    if isinstance(X, Rat) and isinstance(Y, Rat) and _vectorised_scatter(rep, k, I, X, Y, idx, val, op, txt, where, data, mask, full):
+        return
     if st_node is None or not (isinstance(X, Rat) and isinstance(Y, Rat)):
         rep.unknown("M4.scatter-order", k.fq, "cannot read the store `%s`" % txt, where)
         return
@@ -279,6 +281,49 @@ def scatter_order(rep, k, ix):
         rep.check(isinstance(inc.op, ast.Add) and norm_text(inc.value) == "1" and st_node.lineno < inc.lineno and same_block, "M4.counter",
                   k.fq + ": counter += 1 once per store, after it (same block)", "counter update is `%s`%s" % (norm_text(inc), "" if same_block else " in another block than the store"),
                   k.where(inc))
+
+
+def _vectorised_scatter(rep, k, I, X, Y, idx, val, op, txt, where, data, mask, full):
+    """the scatter as one fancy-index assignment: out[:, :, xs, ys] = data[:, :, :len(xs)] with (xs, ys) = nonzero(mask == 1).
+    numpy.nonzero / where / argwhere enumerate the true cells in row-major (C) order, so the k-th enumerated cell is the k-th
+    active cell: same obligations as the loop form, read from the index arrays.  Returns False if the store is not of this form."""
+    from ..plf import Rat, Fn, Sym
+    xa, ya = X.single_atom(), Y.single_atom()
+    if not (isinstance(xa, Fn) and isinstance(ya, Fn) and xa.name == "getitem" and ya.name == "getitem" and
+            isinstance(xa.args[0], Rat) and same_value(xa.args[0], ya.args[0])):
+        return False
+    w = xa.args[0].single_atom()
+    if not (isinstance(w, Fn) and w.name == "where1" and len(w.args) == 1 and isinstance(w.args[0], Rat)):
+        return False
+    kx, ky = xa.args[1], ya.args[1]
+    rep.check(same_value(kx, Rat.const(0)) and same_value(ky, Rat.const(1)), "M4.scatter-order",
+              k.fq + ": cells are visited in row-major order of (x, y)",
+              "row indices of the active cells are component %s and column indices component %s of nonzero(...)" % (nf(kx), nf(ky)), where,
+              note="numpy.nonzero enumerates the true cells in row-major order; x = component 0, y = component 1")
+    # the test: mask == 1 on the whole mask (or on its leading square block, which is what the loops over range(shape[0]) visit)
+    n0 = Rat.sym("shape(%s)[0]" % k.params[1], ("int", "size"))
+    from ..interp import mk_cmp
+    c1 = mk_cmp("==", mask, Rat.const(1))
+    sq = Rat.atom(Fn("getitem", (mask, (full, ("slice", Rat.const(0), n0, None)))))
+    c2 = mk_cmp("==", sq, Rat.const(1))
+    rep.check(same_value(w.args[0], c1) or same_value(w.args[0], c2), "M4.scatter-order",
+              k.fq + ": cell (x, y) is filled iff mask[x, y] == 1, tested at the coordinates it is stored at",
+              "the active cells are those where %s" % nf(w.args[0], 120), where)
+    rep.check(same_value(idx[:-2], (full, full)) and op == "=", "M4.scatter-order", k.fq + ": stored at [:, :, x, y]",
+              "data is stored at %s" % nf(idx, 120), where)
+    rep.ok("M4.scatter-order", k.fq + ": loops run over the whole mask", "nonzero() scans the whole tested array")
+    # k-th active cell receives data[..., k]: the value is data itself or its leading len(xs) columns, in order
+    cnt_forms = [Rat.atom(Fn("len", (X,))), Rat.atom(Fn("len", (Y,))), Rat.atom(Fn("count_nonzero", (w.args[0],))),
+                 Rat.atom(Fn("sum", (w.args[0], None)))]
+    good = same_value(val, data)
+    va = val.single_atom() if isinstance(val, Rat) else None
+    if isinstance(va, Fn) and va.name == "getitem" and same_value(va.args[0], data) and isinstance(va.args[1], tuple) and len(va.args[1]) == 3 \
+            and same_value(va.args[1][:2], (full, full)):
+        last = va.args[1][2]
+        good = isinstance(last, tuple) and len(last) == 4 and last[0] == "slice" and last[3] is None and same_value(last[1], Rat.const(0)) and \
+            (last[2] is None or any(same_value(last[2], c_) for c_ in cnt_forms))
+    rep.check(good, "M4.counter", k.fq + ": k-th active cell receives data[..., k]", "stored value is %s" % nf(val, 120), where)
+    return True
 
 
 def _same_block(fnode, a, b):
